@@ -2339,8 +2339,9 @@ Section FormatGen.
         injection Hk as Hc Hp. subst c p. cbn [ostr].
         destruct (dict_get w_span d); apply (dict_set_keys (fun k : str => k = w_span));
           try reflexivity; exact Hd. }
-      rewrite Forall_forall in Hcon. specialize (Hcon _ Hkv). cbv beta in Hcon |- *.
-      Show. rewrite Hcon. eexists. reflexivity.
+      rewrite Forall_forall in Hcon. specialize (Hcon _ Hkv).
+      destruct kv as [k0 items]. cbn [fst snd] in *. subst k0.
+      exists (join s_space items). reflexivity.
     - destruct (find (fun kv : cp_key * list str => cp_eqb (fst kv) (None, None)) cp)
         as [[k vs]|] eqn:F; [|constructor].
       apply find_some in F. destruct F as [Hin Hk]. cbn [fst] in Hk. apply cp_eqb_eq in Hk.
@@ -2376,8 +2377,10 @@ Proof.
       unfold fw_okb in Hok. rewrite forallb_forall in Hok. specialize (Hok _ Hin).
       cbn [fst snd] in Hok. rewrite str_eqb_refl, Hoff in Hok. cbn [negb orb] in Hok.
       destruct (vertAlign_entry hf Hg) as (Hx & _ & _). rewrite Hx, eval_prefix3 in He.
+      set (s0 := firstn 3 (ostr v)) in *. clearbody s0.
       injection He as <-. unfold has_word, first_word.
-      destruct (words (firstn 3 (ostr v))) as [|w ws]; [discriminate Hok|]. eauto.
+      destruct (words s0) as [|w ws]; [discriminate Hok|].
+      exists w. reflexivity.
     - apply dict_get_in in Hg.
       pose proof table_ok as T. rewrite forallb_forall in T. specialize (T _ Hg).
       unfold entry_ok in T. cbn [fst snd] in T. injection Hcp as Hc Hp.
@@ -2490,7 +2493,7 @@ Proof.
     destruct (format_words_necessary pr st E H) as (x & Hx & Hw).
     rewrite Forall_forall in HF. destruct (HF x Hx) as (w & Hw'). rewrite Hw in Hw'.
     discriminate Hw'.
-  - intros Hok. apply format_words; assumption.
+  - intros Hok. exact (format_words pr st Hok H).
 Qed.
 
 Theorem styles_words_ok_partial : forall e ks st,
@@ -2596,6 +2599,7 @@ Print Assumptions erase_plain_fixed.
 Print Assumptions erase_idem.
 Print Assumptions styles_words_ok_counterexample.
 Print Assumptions styles_words_ok_refuted.
+Print Assumptions format_words_iff.
 Print Assumptions styles_words_ok_partial.
 Print Assumptions ex_styles_ok.
 Print Assumptions ex_projection.
